@@ -28,7 +28,7 @@ manifest = {
         "guard": "verif",
         "enable": "go build -tags verif (the harness module /verif/harness replaces github.com/mlange-42/ark by /repo)",
         "baseline_off_cmd": "cd /repo && GOFLAGS=-mod=mod GOPROXY=off go test -json -vet=off -count=1 -timeout 25m ./...",
-        "source_commits": ["5039b12"],
+        "source_commits": ["5039b12", "9feaaec"],
         "add_only": True,
     },
     "engines": [
